@@ -25,6 +25,7 @@ package mvs
 //@ func (*mvs.Reqs).Required
 //@   requires r != nil && r.root != nil
 //@   ensures root-list: p.Path == "" ==> (result.1 == nil && result.0 == r.root.Requirements)
+//@   retassert a-project-that-cannot-be-loaded-is-an-error: err != nil ==> result.1 != nil
 //@   modifies heap, smap
 
 //@ func (*mvs.Resolver).resolveProject
@@ -137,6 +138,7 @@ package mvs
 //@ func mvs.transformReqs
 //@   requires root != nil
 //@   modifies heap, smap
+//@   loop over root.Requirements: step one-edge-per-requirement: when true ensures len(versions) == old(len(versions)) + 1
 //@   loop over newVersions#2: step new-names-are-fresh: when true ensures forall k: string :: old(has(newReqs, k)) ==> (has(newReqs, k) && newReqs[k] == old(newReqs[k]))
 
 // C10: the version order the adapter hands to the library is a total preorder with the root on top
